@@ -730,6 +730,80 @@ pub fn run(ctx: &mut Ctx) {
     ctx.run_cases("concurrent", n, false, |ctx, rng, idx| {
         concurrent(ctx, &env, rng, idx);
     });
+    // read-back / write-back histories: engine b sets x, reads y back and sets y; engine a sets y
+    // directly. Whenever all getters agree afterwards the waveforms must agree bit for bit. The
+    // Debug rendering of the two conditions (which shows private fields) is only used to find
+    // candidates worth the two syntheses; the verdict is the waveform.
+    let n = ctx.n(16, 400);
+    ctx.run_cases("read-back-write-back", n, false, |ctx, rng, idx| {
+        let base = env.load_bundled();
+        let u = Utt::random(&env, rng, 1, 3, false);
+        let mut candidates = 0usize;
+        let mut tried = 0usize;
+        for k in 0..2000 {
+            let which = (idx + k) % 4;
+            let x = match which {
+                0 => (rng.range(0, 1600) as f64 - 800.0) / 20.0, // volume on a 0.05 dB grid
+                1 => rng.uniform(-40.0, 40.0),
+                2 => rng.uniform(0.3, 3.0),
+                _ => rng.uniform(-24.0, 24.0),
+            };
+            let mut a = base.clone();
+            let mut b = base.clone();
+            let y = match which {
+                0 | 1 => {
+                    b.condition.set_volume(x);
+                    let y = b.condition.get_volume();
+                    b.condition.set_volume(y);
+                    a.condition.set_volume(y);
+                    y
+                }
+                2 => {
+                    b.condition.set_speed(x);
+                    let y = b.condition.get_speed();
+                    b.condition.set_speed(y);
+                    a.condition.set_speed(y);
+                    y
+                }
+                _ => {
+                    b.condition.set_additional_half_tone(x);
+                    let y = b.condition.get_additional_half_tone();
+                    b.condition.set_additional_half_tone(y);
+                    a.condition.set_additional_half_tone(y);
+                    y
+                }
+            };
+            tried += 1;
+            if getters(&a) != getters(&b) {
+                continue; // the property is about equal current settings only
+            }
+            if format!("{:?}", a.condition) == format!("{:?}", b.condition) {
+                continue;
+            }
+            candidates += 1;
+            match (u.synth(&a), u.synth(&b)) {
+                (Ok(wa), Ok(wb)) => {
+                    if !bits_eq(&wa, &wb) {
+                        ctx.violation(
+                            "same-getters-different-waveform",
+                            J::obj().set("setter", ["volume", "volume", "speed", "half tone"][which]).set("x", x).set("read_back_and_set_again", y).set("getters", getters(&a)).set("condition_a", format!("{:?}", a.condition)).set("condition_b", format!("{:?}", b.condition)),
+                        );
+                        return;
+                    }
+                }
+                _ => {
+                    ctx.violation("synthesize-err", J::from("read-back-write-back"));
+                    return;
+                }
+            }
+            if candidates >= 8 {
+                break;
+            }
+        }
+        ctx.count("read_back_histories_tried", tried as f64);
+        ctx.count("read_back_candidates_with_differing_private_state", candidates as f64);
+        ctx.nontrivial(mix(&[31, idx as u64]));
+    });
     // the tiny-voice thread workload also runs natively (and under TSan)
     ctx.run_cases("tiny-threads", 4, true, |ctx, _rng, idx| {
         miri_threads(ctx, idx);
